@@ -197,6 +197,33 @@ func buildC11Table(rng *gen.RNG) []c11Op {
 			}
 			return fmt.Sprintf("%+v", *p)
 		})
+		// a caller may do what it likes with a returned key: wipe it. Later calls must not be affected.
+		ops = append(ops, c11Op{desc: fmt.Sprintf("DecodeSecret-then-wipe#%d", i), want: hexs(s.key), exec: func() string {
+			b, err := otp.DecodeSecret(text)
+			if err != nil {
+				return "ERR"
+			}
+			h := hexs(b)
+			for j := range b {
+				b[j] = 0xA5
+			}
+			return h
+		}})
+		q := fmt.Sprint(rng.U64()) + fmt.Sprint(rng.U64())[:1+i]
+		if wq, ok := ref.QuestionToBytes(q); ok {
+			ops = append(ops, c11Op{desc: fmt.Sprintf("ParseDecimalChallengeRFC6287#%d", i), want: hexs(wq), exec: func() string {
+				b, err := otp.ParseDecimalChallengeRFC6287(q)
+				if err != nil {
+					return "ERR"
+				}
+				return hexs(b)
+			}})
+		}
+		huge := strings.Repeat(fmt.Sprint(3+i), 200+40*i) // outside the helper's documented size, still a legal call
+		alone(fmt.Sprintf("ParseDecimalChallengeRFC6287-oversized#%d", i), func() string {
+			b, err := otp.ParseDecimalChallengeRFC6287(huge)
+			return fmt.Sprintf("%d/%v", len(b), err == nil)
+		})
 		dec := fmt.Sprint(rng.U64())
 		alone(fmt.Sprintf("helpers#%d", i), func() string {
 			a, _ := otp.ParseDecimalChallengeRFC6287(dec)
@@ -388,11 +415,12 @@ func c11Configs(c *Ctx) []c11Config {
 		mk(16, 4, true, true, false, 0)
 		mk(64, 16, true, false, true, 0)
 		mk(2, 1, true, true, true, 0)
+		mk(8, 67, false, false, true, 0) // more processors than at package initialisation
 		return out
 	}
 	for rep := 0; rep < 3; rep++ {
 		for _, g := range []int{1, 2, 4, 16, 64} {
-			for _, p := range []int{1, 2, 4, 16} {
+			for _, p := range []int{1, 2, 4, 16, 61} {
 				mk(g, p, (g+p+rep)%3 != 0, (g*p+rep)%4 != 1, (g+rep)%2 == 0, rep)
 			}
 		}
